@@ -291,3 +291,85 @@ Example C13_example_pmt_userdesc :
         PSIData_Sections := [pmt_section_value true false 1 3 true 0 0 256 (map ud_value pd) (flat_map ud_enc pd)
                                [(27, 256, map ud_value sd, flat_map ud_enc sd)]] |}.
 Proof. vm_compute. reflexivity. Qed.
+
+(* ---- the descriptor premises discharged for loops of TYPED descriptors ----
+   typed_desc ds bytes (Proofs/PsiTypedDesc.v): ds is any list mixing the 23 typed tags, unknown tags and user-defined
+   tags (the 25 classes of C14's typed_rt), zero-item bodies included, inside the per-tag domains of C14, in the form
+   parseDescriptors returns it (Length = body size, only the body of the tag present: Forall2 wf_entry ds ds), the loop
+   shorter than 4096 bytes; bytes is what writeDescriptors emits for ds.  C13_typed_desc_premises: parseDescriptors,
+   started wherever such a loop lies in a section and whatever the four bits in front of its length hold, returns ds
+   and stops behind the loop (from C14_loop_body_at_offset) -- so the decoding theorems of the PMT, SDT, NIT, EIT and
+   TOT hold outright for sections whose loops carry typed descriptors (the five _typed corollaries below have no
+   premise about descriptors left).  C13_typed_desc_written: asking for the parsed form loses nothing -- whatever list
+   ds0 of C14's domain a caller hands to the writer (any Length fields, stray bodies of other tags), the bytes written
+   are the bytes of its parsed form ds and (ds, bytes) is in typed_desc; the writer side (desc_bytes, the premise of
+   C13_write_pmt) holds for both. *)
+Require Import Proofs.DescRoundTripAll Proofs.PsiTypedDesc.
+
+Theorem C13_typed_desc_premises : desc_premises typed_desc.
+Proof. exact typed_desc_premises. Qed.
+Print Assumptions C13_typed_desc_premises.
+
+Theorem C13_typed_desc_bytes : forall ds bytes, typed_desc ds bytes -> desc_bytes ds bytes.
+Proof. exact typed_desc_bytes. Qed.
+Print Assumptions C13_typed_desc_bytes.
+
+Theorem C13_typed_desc_written : forall ds0 ds its, Forall2 wf_entry ds0 ds ->
+  enc_descriptors ds0 = Ok its -> items_bytes_ok its -> DescSpec.loop_size ds0 < 4096 ->
+  typed_desc ds (bytes_of_items its) /\ desc_bytes ds0 (bytes_of_items its).
+Proof. exact typed_desc_of_written. Qed.
+Print Assumptions C13_typed_desc_written.
+
+Theorem C13_pmt_section_parses_typed : forall ssi pb ext ver cni sn lsn pcr pds pbytes xs,
+  pmt_wf typed_desc ext ver sn lsn pcr pds pbytes xs ->
+  sec_parses (spec_pmt_section ssi pb ext ver cni sn lsn pcr pbytes (map stream_spec xs))
+             (pmt_section_value ssi pb ext ver cni sn lsn pcr pds pbytes xs).
+Proof. exact pmt_parses_typed. Qed.
+Print Assumptions C13_pmt_section_parses_typed.
+
+Theorem C13_parse_sdt_typed : forall tid ssi pb ext ver cni sn lsn onid xs,
+  sdt_wf typed_desc tid ext ver sn lsn onid xs ->
+  sec_parses (spec_section tid ssi pb (spec_sdt_body ext ver cni sn lsn onid (map sv_spec xs)))
+             (sdt_section_value tid ssi pb ext ver cni sn lsn onid xs).
+Proof. exact sdt_parses_typed. Qed.
+Print Assumptions C13_parse_sdt_typed.
+
+Theorem C13_parse_nit_typed : forall tid ssi pb ext ver cni sn lsn nds nbytes xs,
+  nit_wf typed_desc tid ext ver sn lsn nds nbytes xs ->
+  sec_parses (spec_section tid ssi pb (spec_nit_body ext ver cni sn lsn nbytes (map ts_spec xs)))
+             (nit_section_value tid ssi pb ext ver cni sn lsn nds nbytes xs).
+Proof. exact nit_parses_typed. Qed.
+Print Assumptions C13_parse_nit_typed.
+
+Theorem C13_parse_eit_typed : forall tid ssi pb ext ver cni sn lsn tsid onid slsn ltid xs,
+  eit_wf typed_desc c15_time c15_dur tid ext ver sn lsn tsid onid slsn ltid xs ->
+  sec_parses (spec_section tid ssi pb (spec_eit_body ext ver cni sn lsn tsid onid slsn ltid (map ev_spec xs)))
+             (eit_section_value tid ssi pb ext ver cni sn lsn tsid onid slsn ltid xs).
+Proof. exact eit_parses_typed. Qed.
+Print Assumptions C13_parse_eit_typed.
+
+Theorem C13_parse_tot_typed : forall ssi pb t tb ds bytes,
+  c15_time t tb -> typed_desc ds bytes -> 7 + Z.of_nat (length bytes) + 4 < 4096 ->
+  sec_parses (spec_section 115 ssi pb (spec_tot_body tb bytes)) (tot_section_value ssi pb t tb ds bytes).
+Proof. exact tot_parses_typed. Qed.
+Print Assumptions C13_parse_tot_typed.
+
+(* the domain is inhabited by a loop of six entries of five different classes -- ISO 639 language, stream identifier,
+   registration, a content descriptor without items (bare header), maximum bitrate, a private descriptor -- written by
+   a caller with wrong Length fields and a stray body (ex_typed_written), read back as ex_typed_loop *)
+Example C13_typed_desc_inhabited :
+  Forall2 wf_entry ex_typed_written ex_typed_loop /\ typed_desc ex_typed_loop ex_typed_bytes /\
+  desc_bytes ex_typed_written ex_typed_bytes /\ length ex_typed_bytes = 29%nat.
+Proof. split; [exact ex_typed_entries|]. split; [apply ex_typed_ok|]. split; [apply ex_typed_ok|reflexivity]. Qed.
+
+(* ... and the model decodes a PMT and an SDT carrying that loop (behind running_status 4 / free_CA 1 in the SDT) as
+   the theorems say *)
+Example C13_example_typed_desc :
+  parse_psi_data_bytes (0 :: spec_pmt_section true false 1 3 true 0 0 256 ex_typed_bytes [(27, 256, ex_typed_bytes); (15, 257, [])]
+                          ++ spec_section 66 true true (spec_sdt_body 1 2 true 0 0 3 [(10, true, false, 4, true, ex_typed_bytes)])) =
+  Ok {| PSIData_PointerField := 0;
+        PSIData_Sections :=
+          [ pmt_section_value true false 1 3 true 0 0 256 ex_typed_loop ex_typed_bytes
+              [(27, 256, ex_typed_loop, ex_typed_bytes); (15, 257, [], [])];
+            sdt_section_value 66 true true 1 2 true 0 0 3 [mk_sdt_svc 10 true false 4 true ex_typed_loop ex_typed_bytes] ] |}.
+Proof. vm_compute. reflexivity. Qed.
